@@ -13,6 +13,8 @@ def write(prop, name, expect, edits, note=""):
     json.dump(m, open(os.path.join(d, name + ".json"), "w"), indent=1)
     # sanity: each old text occurs exactly once
     for e in edits:
+        if not os.path.exists(os.path.join("/repo", e["file"])):
+            continue  # a file the variant adds
         src = open(os.path.join("/repo", e["file"])).read()
         if src.count(e["old"]) != 1 and not e.get("occurrence"):
             print("WARNING: old text occurs %d times in %s" % (src.count(e["old"]), e["file"]))
